@@ -106,8 +106,10 @@ def gen_cases(ctx: Ctx):
         step = 1 if ctx.thorough else (5 if n == 0 else 23)
         muts = list(hostile.mutations(blob, ctx.rng, ctx.thorough and n == 0, flips_step=step)) + list(hostile.keyid_field_edits(blob)) \
             + _pub_edits(blob)
+        clm = list(hostile.consistent_length_mutations(blob))
         if not ctx.thorough and n > 0:
             muts = muts[:: (4 if n < 4 else 12)] + _pub_edits(blob)
+        muts += clm if (ctx.thorough or n in (0, 1, 4)) else clm[:: 5]
         for m in [blob] + muts:
             if m in seen:
                 continue
